@@ -54,6 +54,29 @@ def corpus(seed, n):
     ]
     for cid, text in fam:
         cases.append((cid, None, text))
+    # refused requests with several independent problems: which one is reported must not depend on the process either
+    six = "Debug, Clone, PartialEq, Hash, Default, PartialOrd"
+    refused = [
+        ("dup6", "#[derive(Educe)]\n#[educe(%s)]\n#[educe(%s)]\nstruct S { a: u8 }\n" % (six, six)),
+        ("dup6b", "#[derive(Educe)]\n#[educe(%s, %s)]\nenum E { A(u8), B }\n" % (six, six)),
+        ("dup_unknown", "#[derive(Educe)]\n#[educe(Debug, Clone, Hash)]\n#[educe(Hash, Clone, Debug, Foo, Bar)]\nstruct S { a: u8 }\n"),
+        ("fields_bad", "#[derive(Educe)]\n#[educe(Debug, Clone, PartialEq, Hash)]\nstruct S { #[educe(Debug(foo), Clone(bar), PartialEq(baz), "
+                       "Hash(qux))] a: u8, #[educe(Hash(x), PartialEq(y), Clone(z), Debug(w))] b: u8 }\n"),
+        ("into_many_bad", "#[derive(Educe)]\n#[educe(Into(u8), Into(u16), Into(u32), Into(u64), Into(i8), Into(i16))]\n"
+                          "struct S { a: u8, b: u8, c: u16, d: u16, e: u32, f: u32, g: u64, h: u64, i: i8, j: i8, k: i16, l: i16 }\n"),
+        ("ranks_bad", "#[derive(Educe)]\n#[educe(PartialEq, PartialOrd)]\nstruct S { #[educe(PartialOrd(rank = 1))] a: u8, "
+                      "#[educe(PartialOrd(rank = 1))] b: u8, #[educe(PartialOrd(rank = 2))] c: u8, #[educe(PartialOrd(rank = 2))] d: u8 }\n"),
+        ("traits_not_used", "#[derive(Educe)]\n#[educe(Debug)]\nstruct S { #[educe(Clone(method(m)), Hash(ignore), PartialEq(ignore), "
+                            "Default = 1, PartialOrd(rank = 1))] a: u8 }\n"),
+    ]
+    for cid, text in refused:
+        cases.append((cid, None, text))
+    # and the refused requests of C13's generator (one injected problem each)
+    from . import c13
+    for k in range(n // 8):
+        g = c13.gen_case(seed, k)
+        if g is not None:
+            cases.append(("bad%d" % k, None, g[2].replace("::educe::Educe", "Educe")))
     return cases
 
 
